@@ -117,6 +117,14 @@ REG["C17"] = dict(
     assumptions=["K2: stubs for ColumnWriter.Flush, flushFilterPages, totalRowCount and writer.writeFileHeader (no page data is written)"],
 )
 
+REG["C18"] = dict(
+    harnesses=[H(P, "VerifH_C18_aadInjective"), H(P, "VerifH_C18_envelope")],
+    explanation="AES-GCM is abstracted as an ideal AEAD (Open(k,n,Seal(k,n,p,a),a)=p, anything else fails, ciphertext bytes are fresh symbols). (K1) makeAAD is injective over the module shapes the writer and reader use (footer; five column-level modules with (row group, column); four page-level modules with (row group, column, page)) for all int16 ordinals and equal prefix/file id: two different modules never share an AAD, so a module transplanted to another page, column or row group is opened with a different AAD. (K2) encryptModule/decryptModule framing: round trip for symbolic plaintext, key, nonce and AAD; truncation at any point, any change of any single byte (length word included), another module's AAD or a wrong key yield an error and never a panic; trailing bytes are ignored. Counterexamples are re-enacted natively with the real AES-GCM.",
+    bounds={"quick": "AAD prefix 0..2 bytes, file id 2 bytes; plaintext 0..3 symbolic bytes, 16-byte symbolic key, 2-byte AAD", "thorough": "same"},
+    outside=["AES-GCM itself, key retrieval", "secrecy of statistics in the footer (needs the whole writer)", "ordinal agreement between writer and reader through seeks (DESIGN K3 not built yet)", "footer signing (signFooter/verifyFooterSignature)"],
+    assumptions=["ideal-AEAD stubs for crypto/aes.NewCipher, crypto/cipher.NewGCM and crypto/rand.Reader (arbitrary nonce bytes)"],
+)
+
 LEVEL_TEXT = "bounded symbolic execution of the real functions (go/ssa of the current /repo tree) with an SMT solver deciding every assertion for all inputs inside the stated bounds; counterexamples are replayed against the natively compiled code before being reported"
 
 def main():
